@@ -798,6 +798,10 @@ def impl_free(case):
             else:
                 ti = 0 if (len(pool) == 1 or r.random() < 0.5) else r.randrange(len(pool))
                 name = names[r.randrange(len(names))]
+            if name in ("neg_out", "mul2_out", "add_self_out"):
+                # an explicit out= update is applied to the root only: an object that came out of a memo is shared
+                # with that memo, and updating it in place is the misuse enable_caching() documents (ASSUMPTIONS)
+                ti = 0
             t = pool[ti]
             try:
                 with np.errstate(all="ignore"):
